@@ -236,6 +236,7 @@ func checkC07(c *Ctx) {
 	c.rule("C07.R4", "what RestoreAt installs derives from the snapshot: the variables checkpoint copies snapshot.Variables, the visit counts copy snapshot.VisitedNodes, the node is the one found under snapshot.CurrentNode", 4)
 	c.rule("C07.R5", "restore order and content: Storer.Clear precedes every Set*, each alternative is restored through its own setter under the snapshot's key, the continuation is cleared before the single push", 4)
 	c.rule("C07.R6", "every successful jump stores Storer.GetValues() into the variables checkpoint", 1)
+	c.rule("C07.R9", "the constructor enters the first node: the variables checkpoint is initialised with GetValues() of the storer the runner keeps (a snapshot taken before any jump is self-contained too)", 1)
 	c.rule("C07.R7", "Snapshot() reads the checkpoint: Variables from variableSnapshot, CurrentNode from currentNode, VisitedNodes from visitedNodes", 3)
 	c.rule("C07.R8", "premises decided elsewhere: visited()/visited_count() read the runner's live visit map field (C11.R4) — RestoreAt installs a new map; the default storer answers GetValues/GetValue/Contains from its current contents after Clear and Set (C03.R5)", 2)
 	dependsOn(c, "C07.R8", "a restored runner must continue exactly as the original: script functions that kept the map RestoreAt replaced would answer from the abandoned history", "C11.R4")
@@ -252,6 +253,9 @@ func checkC07(c *Ctx) {
 	sVars := structFieldByType(snapT, "map[string]variable.Value")
 	sVis := structFieldByType(snapT, "map[string]int")
 	sNode := structFieldByType(snapT, "string")
+	if sNode == nil {
+		sNode = structFieldByName(snapT, "CurrentNode") // more than one string field (e.g. a seed was added): by name
+	}
 	if sVars == nil || sVis == nil || sNode == nil {
 		c.undecided("C07", "Snapshot fields not resolved by type")
 		return
@@ -640,6 +644,34 @@ func checkC07(c *Ctx) {
 	wantSnap := "$" + recvName(m.jump) + "." + m.fStore.Name() + ".GetValues()"
 	okSnap = okSnap && snapSrc == wantSnap
 	c.ob("C07.R6", m.jump.Name+"/checkpoint", w.Pos(m.jump.Decl.Pos()), okSnap, map[bool]string{true: "every successful jump stores " + wantSnap + " into the checkpoint", false: "a successful jump does not checkpoint the storer's values (success paths: " + strings.Join(seqList(jf.successSeqs), " / ") + "; stored: " + snapSrc + ")"}[okSnap])
+
+	// ----- R9: the first node is entered by the constructor: the checkpoint starts as the storer's values
+	{
+		ci := m.ctorInit(w)
+		cx := w.expander(m.ctor)
+		init := ci.fields[m.fSnap.Name()]
+		src := ""
+		if init != nil {
+			src = cx.str(init)
+		}
+		storeInit := ci.fields[m.fStore.Name()]
+		okInit := false
+		why := "the constructor leaves the variables checkpoint empty: a snapshot taken in the first node holds no variable although the storer the runner was given may, and restoring it clears that storer"
+		if init != nil && strings.HasSuffix(src, ".GetValues()") {
+			recv := strings.TrimSuffix(src, ".GetValues()")
+			switch {
+			case storeInit != nil && cx.str(storeInit) == recv:
+				okInit, why = true, "the checkpoint is initialised with GetValues() of the storer the runner keeps ("+shorten(recv, 40)+")"
+			case ci.obj != nil && recv == "$"+ci.obj.Name()+"."+m.fStore.Name():
+				okInit, why = true, "the checkpoint is initialised with GetValues() of the runner's storer"
+			default:
+				why = "the checkpoint is initialised from " + shorten(src, 60) + ", not from the storer the runner keeps"
+			}
+		} else if init != nil {
+			why = "the checkpoint is initialised with " + shorten(src, 60) + ", not with the storer's GetValues()"
+		}
+		c.ob("C07.R9", m.ctor.Name+"/first-node-checkpoint", w.Pos(ci.pos), okInit, why)
+	}
 
 	// ----- R7
 	sx := w.expander(m.snapshot)
